@@ -1,6 +1,7 @@
 import PprofVerif.Lemmas.StacksBuild
 import PprofVerif.Lemmas.StacksValid
 import PprofVerif.Lemmas.StacksExample
+import PprofVerif.Lemmas.StacksAggregate
 /-!
 # C17 — flame-graph stack data is a faithful, self-consistent index of samples
 
@@ -173,5 +174,28 @@ theorem arrays_nonnil (p : Profile) (idx : Nat) (ss : StackSet) (h : stacks p id
     obtain ⟨i, hi⟩ := List.mem_iff_getElem?.1 hs
     obtain ⟨s0, _, rfl⟩ := result_source_get hi
     rfl
+
+/-- Granularity never removes a frame: under any granularity that keeps inlined frames
+(functions, filefunctions, files, lines; columns on or off) the frames of every sample in the
+aggregated view `Spec.aggregate f p` are the frames of the sample in `p`, one for one and in the
+same order, each reduced to the attributes the granularity shows (`Spec.aggFrame`) — so, by
+`stack_sources_eq_frames` applied to `Spec.aggregate f p`, a stack of the flame-graph view has
+one entry per line of the sample's locations; two equal consecutive frames (a function inlined
+into itself, direct recursion) stay two entries. -/
+theorem granularity_keeps_frames (f : Spec.AggFlags) (hn : f.none = false) (hi : f.inlines = true)
+    (p : Profile) (s : Sample) :
+    Spec.sampleFrames (Spec.aggregate f p) s = (Spec.sampleFrames p s).map (·.map (Spec.aggFrame f)) ∧
+    ∀ fs, Spec.sampleFrames p s = some fs →
+      ∃ gs, Spec.sampleFrames (Spec.aggregate f p) s = some gs ∧ gs.length = fs.length := by
+  have h := sampleFrames_aggregate f hn hi p s
+  refine ⟨h, ?_⟩
+  intro fs hfs
+  exact ⟨fs.map (Spec.aggFrame f), by rw [h, hfs]; rfl, by simp⟩
+
+-- non-vacuity: filefunctions granularity on `exProfile` — the recursive inlined chain keeps its 5 frames
+example : (Spec.sampleFrames (Spec.aggregate ⟨false, true, true, true, false, false⟩ exProfile)
+    { locationIDs := [2, 2, 3, 1], values := [5], label := [], numLabel := [], numUnit := [] }).map
+      (·.map (fun fr => (fr.name, fr.line, fr.inlined))) =
+    some [([109], 0, false), ([102], 0, false), ([103], 0, true), ([102], 0, false), ([103], 0, true)] := by decide
 
 end PV.Props.C17
